@@ -227,8 +227,76 @@ pub fn run(args: &Args, rep: &mut Rep) {
             }
         });
     } else {
-        drive(args, rep, move |rng, _| run_case(rng, lo, hi));
+        drive(args, rep, move |rng, _| if rng.chance(1, 40) { tower_case(rng) } else { run_case(rng, lo, hi) });
     }
+}
+
+/// Deep sharing: `t0 = leaf`, `t(k+1) = app(tk, tk)` (or `ite(tk, tk, tk)`), built node by node. The term denoted by the top class
+/// has more than 2^64 nodes although the e-graph has a few dozen; every operation that consults a size (extractor tables, the
+/// convenience extraction functions, rewriting with the extraction-based substitution method) has to complete on it.
+pub fn tower_case(rng: &mut Rng) -> CaseOut {
+    let mut out = CaseOut::default();
+    let ternary = rng.chance(1, 2);
+    let levels = if ternary { rng.range(38, 50) } else { rng.range(60, 80) };
+    let extraction_subst = rng.chance(1, 2);
+    let leaf = *rng.pick(&["(var $p0)", "c", "(f $p0 $p1)"]);
+    let desc = format!("tower of {levels} levels of {} over {leaf}, extraction_subst={extraction_subst}", if ternary { "ite(t,t,t)" } else { "app(t,t)" });
+    let cj = J::obj(vec![("setup", J::s(desc.clone()))]);
+    let mut eg: EGraph<LSym> = if extraction_subst { EGraph::with_subst_method::<ExtractionSubst>(()) } else { EGraph::default() };
+    let mut handles = vec![];
+    let r = guard(|| {
+        let base = eg.add_expr(RecExpr::parse(leaf).unwrap());
+        handles.push(base.clone());
+        let mut t = base.clone();
+        for _ in 0..levels {
+            t = if ternary { eg.add(LSym::Ite(t.clone(), t.clone(), t.clone())) } else { eg.add(LSym::App(t.clone(), t.clone())) };
+        }
+        handles.push(t.clone());
+        // an unrelated small redex in the same e-graph
+        let redex = eg.add_expr(RecExpr::parse("(app (lam $p501 (pair (var $p501) d)) (g $p2))").unwrap());
+        handles.push(redex.clone());
+        // sizes are consulted for every class
+        let ex = Extractor::<LSym, AstSize>::new(&eg, AstSize);
+        let top_cost = ex.get_best_cost::<()>(&eg.find_applied_id(&t));
+        let base_cost = ex.get_best_cost::<()>(&eg.find_applied_id(&base));
+        assert!(top_cost >= base_cost, "harness: tower cost below leaf cost");
+        let small = ex.extract(&base, &eg);
+        let small2 = ast_size_extract::<LSym, ()>(&redex, &eg);
+        let _ = (small, small2);
+        // the top is equal to a constant: extraction of the (now small) top class
+        if rng.chance(1, 2) {
+            let k = eg.add_expr(RecExpr::parse("e").unwrap());
+            if leaf == "c" {
+                eg.union(&t, &k);
+                let ex2 = Extractor::<LSym, AstSize>::new(&eg, AstSize);
+                let got = ex2.extract(&t, &eg);
+                assert!(got.to_string() == "e", "harness: expected e");
+            }
+        }
+        let rws: Vec<Rewrite<LSym>> = vec![Rewrite::new("beta", "(app (lam $x ?b) ?t)", "?b[(var $x) := ?t]"), Rewrite::new("pair-swap", "(pair ?a ?b)", "(pair ?b ?a)")];
+        apply_rewrites(&mut eg, &rws);
+    });
+    out.inc("towers");
+    if let Err(p) = r {
+        out.fail(Fail::panic("panic", &p, &desc, cj));
+        return out;
+    }
+    let (n, bad) = structural_invariants(&eg);
+    out.add("invariant_checks", n);
+    if let Some((sig, d)) = bad {
+        out.fail(Fail::new("inconsistent", sig, format!("{desc}: {d}"), cj.clone()));
+        return out;
+    }
+    let (n, bad) = handle_invariants(&eg, &handles);
+    out.add("invariant_checks", n);
+    if let Some((sig, d)) = bad {
+        out.fail(Fail::new("inconsistent", sig, format!("{desc}: {d}"), cj));
+        return out;
+    }
+    out.inc("histories_completed");
+    out.nontrivial = Some(crate::rng::fnv(&desc));
+    out.sample = Some(J::obj(vec![("mode", J::s("tower")), ("setup", J::s(desc))]));
+    out
 }
 
 // ---------------------------------------------------------------------------------------------
